@@ -3,7 +3,7 @@
 HERE="$(cd "$(dirname "$0")/.." && pwd)"
 OUT="${1:-$HERE/seeded/RESULTS.tsv}"
 : > "$OUT"
-for d in "$HERE"/seeded/C*-*; do
+for d in "$HERE"/seeded/C[0-9][0-9]-*; do
   name=$(basename "$d"); prop=${name%-*}
   res=$(VERIF_JOBS=${VERIF_JOBS:-16} timeout 1500 "$HERE/bin/mut-run" "$name" "$prop" 2>&1 | grep -v KNOWN-FINDING)
   rc=$(echo "$res" | grep "^mut-run" | sed 's/.*exit //')
